@@ -154,6 +154,7 @@ def header(case, res):
     nostack = case["api"] == "old" and case.get("style") == "kitty" and case["ident"].startswith("kitty")
     return dict(cols=cols, rows=rows, r0=case["r0"], pw=pw, ph=ph, l=l, t=t, rw=rw, rh=rh,
                 fill_empty=fill_empty, nostack=nostack, mode="clean", outcome=res["outcome"], expect="ok", attrs_equal=res["attrs_equal"],
+                wrong_stream=bool(res.get("stale_out")),
                 fin=res["fin"], state_same=res["state_same"], **inner)
 
 
@@ -198,7 +199,7 @@ def validation_table(rep: Report):
         rep.violation(f"design:DrawValidate:{res.violated}", res.error_text[:1500], {"kind": "design"})
         return
     table = res.tagged("TABLE")
-    if len(table) < 1000:
+    if len(table) < 2000:
         raise tlc.MachineryError("DrawValidate table not dumped")
     rng = random.Random(rep.seed + 17)
     if rep.tier == "quick":
@@ -209,15 +210,15 @@ def validation_table(rep: Report):
         rep.evaluations += 1
         if c["api"] == "new":
             # padded size pw x ph realised as render 1x1 + exact padding
-            case = dict(api="new", rw=1, rh=1, frames=2 if c["anim"] else 1, loops=1, cache=False,
+            case = dict(api="new", rw=1, rh=1, frames=2 if c["multi"] else 1, loops=1, cache=False,
                         pad={"kind": "exact", "l": 0, "t": 0, "r": c["pw"] - 1, "b": c["ph"] - 1},
-                        cols=c["cols"], rows=c["rows"], tty=False, r0=0, animate=True,
+                        cols=c["cols"], rows=c["rows"], tty=False, r0=0, animate=c["animate"],
                         check_size=c["check"], allow_scroll=c["scroll"])
         else:
-            case = dict(api="old", style="block", ident="other", frames=2 if c["anim"] else 1,
+            case = dict(api="old", style="block", ident="other", frames=2 if c["multi"] else 1,
                         rw=c["rw"], rh=c["rh"], h_align=None, pad_width=c["padw"], v_align=None,
                         pad_height=c["padh"], repeat=1, cached=False, cols=c["cols"], rows=c["rows"],
-                        tty=False, r0=0, method=None, animate=True, scroll=c["scroll"],
+                        tty=False, r0=0, method=None, animate=c["animate"], scroll=c["scroll"],
                         check_size=c["check"])
         r = run_case(case)
         rep.distinct.add(("table", json.dumps(c, sort_keys=True)))
